@@ -283,10 +283,17 @@ impl Model {
         // recoveries consume refunded packets: everything refundable that left the queue in this tx
         let mut consumed_now: Vec<QObs> = vec![];
         if res.ok && is_recover {
+            let forced_by_admin = msg.get("recover_pending_ibc_transfers").and_then(|m| m.get("selected_packets")).map(|x| !x.is_null()).unwrap_or(false) && op_sender == sc.admin_now();
             for p in &pre.queue {
-                if (p.status == "ack_failure" || p.status == "timed_out") && !post.queue.iter().any(|x| x.seq == p.seq && x.status == p.status && x.amount == p.amount) {
+                let refundable = p.status == "ack_failure" || p.status == "timed_out";
+                // an admin-forced recovery may also take transfers that are still in flight; their
+                // value has then been re-sent once and must never be re-sent again
+                if (refundable || (forced_by_admin && p.status == "sent")) && !post.queue.iter().any(|x| x.seq == p.seq && x.status == p.status && x.amount == p.amount) {
                     consumed_now.push(p.clone());
                     self.consumed.insert((pre.channel(), p.seq));
+                    if !refundable {
+                        self.count("forced_recovery_of_inflight");
+                    }
                 }
             }
         }
@@ -835,7 +842,7 @@ impl Model {
             let listed = post.queue.iter().find(|x| x.seq == p.seq);
             let consumed = self.consumed.contains(&(p.channel.clone(), p.seq));
             let want = match p.status {
-                PStatus::InFlight => Some("sent"),
+                PStatus::InFlight => if consumed { None } else { Some("sent") },
                 PStatus::Acked => None,
                 PStatus::ErrAcked => if consumed { None } else { Some("ack_failure") },
                 PStatus::TimedOut => if consumed { None } else { Some("timed_out") },
